@@ -305,11 +305,18 @@ fn random_ranges(rng: &mut Rng, text: &[u8], bounds: &[usize]) -> Vec<(usize, us
     let mut cuts: Vec<usize> = (0..2 * k)
         .map(|_| if !bounds.is_empty() && rng.chance(2, 3) { (*rng.pick(bounds)).min(n) } else { rng.below(n + 1) })
         .collect();
+    // mostly keep range boundaries off the middle of multi-byte characters (finding
+    // C01-range-boundary-splits-character would otherwise mask most histories of such documents)
+    for c in cuts.iter_mut() {
+        while *c < n && (text[*c] & 0xC0) == 0x80 && !rng.chance(1, 8) {
+            *c += 1;
+        }
+    }
     cuts.sort();
     let mut v = Vec::new();
     for i in 0..k {
         let (a, b) = (cuts[2 * i], cuts[2 * i + 1]);
-        if rng.chance(1, 8) || a < b {
+        if rng.chance(1, 24) || a < b {
             v.push((a, b));
         }
     }
